@@ -315,7 +315,7 @@ def enumerate_cases(ctx):
               '(grid, n_chunks_kept) pairs with spike i at time i (spikes on bounds and in dropped chunks) x counts '
               '{None,0,-1,1,2,(3 thorough only),10} x requests {[],[0],[2,0],[7],[0,7,2],[2,2],[1,5]} (unknown ids 1,7) x chunk restriction on/off '
               'x subset off / two subsets (one unsorted, one with foreign ids); %d RNG seeds per configuration with a draw'
-              % (LB, 5 if quick else 20))
+              % (LB, 4 if quick else 20))
     vecs = [list(v) for n in range(1, LB + 1) for v in itertools.product([0, 2], repeat=n)]
     vecs += [list(v) for n in range(1, 5) for v in itertools.product([0, 2, 5], repeat=n) if 5 in v]
     for sc in vecs:
@@ -329,7 +329,7 @@ def enumerate_cases(ctx):
                         for sub in subsets:
                             configs.append({'n': n, 'req': req, 'subset_chunks': sub_chunks, 'subset_spikes': sub})
             ctx.run('select', {'times': list(range(nsp)), 'sc': sc, 'cb': cb, 'kept': kept, 'configs': configs,
-                               'n_seeds': 5 if quick else 20, 'times_dtype': 'int64'})
+                               'n_seeds': 4 if quick else 20, 'times_dtype': 'int64'})
 
     # ---- model level ------------------------------------------------------------------------------------------
     ND = 4 if quick else 30
